@@ -12,6 +12,14 @@ Typing (first letter(s) of the type tag):
   U unit   IN raw constructor input (Model.input)   RF relflag   FI check_fh argument (fhin)
 Every translated expression is (term, type, raises); a raising term has Coq type `res T`.
 All Python exceptions are collapsed into `Err`.
+
+Rewrites the translation follows: guard clauses / early returns and de-indented else branches
+(continuation style); `x not in T` for `not x in T`; conditional expressions; a type tuple chosen
+first and tested afterwards (`ts = A if c else B; if type(v) not in ts`); private helpers - a call
+of a module-level function of _fh.py or of a `self._m(..)` method that is not one of the
+translated entry points is inlined (parameters bound to the translated arguments, result type and
+raising inferred, recursion refused), so extracting or inlining a helper does not change the
+meaning of the generated function; temporaries.
 """
 import ast
 import os
@@ -35,7 +43,7 @@ REFINING_TESTS = {
 }
 # _check_values returns pd.Int64Index or pd.RangeIndex (pandas typing, modelled); both are members of
 # RELATIVE_TYPES and ABSOLUTE_TYPES (checked against the source by check_type_constants)
-STATIC_TRUE_TESTS = ("type({x}) in RELATIVE_TYPES", "type({x}) in ABSOLUTE_TYPES")
+TYPE_SETS = ("RELATIVE_TYPES", "ABSOLUTE_TYPES")
 MESSAGE_NODES = (ast.Tuple, ast.Constant, ast.JoinedStr, ast.FormattedValue, ast.Starred,
                  ast.ListComp, ast.comprehension, ast.Name, ast.Attribute, ast.Load, ast.Store)
 
@@ -163,7 +171,14 @@ class Tr:
             if e.id in env:
                 t, ty = env[e.id]
                 return t, ty, False
+            if e.id in TYPE_SETS:
+                # a tuple of index types that contains both integer index types (checked against
+                # the source by check_type_constants)
+                return "tt", "TS", False
             raise Unsupported("unbound name " + e.id)
+        if isinstance(e, ast.IfExp):
+            return self.cond(e.test, env, lambda en: self.ex(e.body, en),
+                             lambda en: self.ex(e.orelse, en))
         if isinstance(e, ast.Attribute):
             u = ast.unparse(e)
             if u in env:
@@ -359,10 +374,63 @@ class Tr:
             self.need(argv[0][1], "IN", e)
             self.need(argv[1][1], "B", e)
             return self.lift(argv, lambda n: ("(gen_init %s (RBool %s))" % (n[0], n[1]), "F", True))
+        r = self.inline(e, env)
+        if r is not None:
+            return r
         raise Unsupported("call " + callee)
+
+    def inline(self, e, env):
+        """A call of a private helper (module-level function of _fh.py, or `self._m(..)`) that is
+        not a translated entry point: translate the callee's body with its parameters bound to
+        the translated arguments. None if `e` is not such a call."""
+        f = e.func
+        fn, recv = None, None
+        entry = {c["path"] for c in FUNCS}
+        if isinstance(f, ast.Name):
+            for n in self.facts.mod.body:
+                if isinstance(n, ast.FunctionDef) and n.name == f.id and f.id not in entry:
+                    fn = n
+        elif isinstance(f, ast.Attribute) and isinstance(f.value, ast.Name) and f.value.id == "self" \
+                and env.get("self", (None, None))[1] == "F":
+            cls = find(self.facts.mod, "ForecastingHorizon")
+            for n in cls.body:
+                if isinstance(n, ast.FunctionDef) and n.name == f.attr \
+                        and "ForecastingHorizon." + f.attr not in entry:
+                    fn, recv = n, env["self"]
+        if fn is None:
+            return None
+        if fn.decorator_list:
+            raise Unsupported("decorated helper " + fn.name)
+        stack = self.cfg.get("_stack", ())
+        if fn.name in stack or len(stack) >= 5:
+            raise Unsupported("recursive helper " + fn.name)
+        a = fn.args
+        if a.vararg or a.kwarg or a.kwonlyargs or a.posonlyargs:
+            raise Unsupported("signature of helper " + fn.name)
+        names = [x.arg for x in a.args]
+        if recv is not None:
+            names = names[1:]
+        dnodes = dict(zip(names[len(names) - len(a.defaults):], a.defaults))
+        defaults = {n: self.ex(d, {}) for n, d in dnodes.items()}
+        argv = self.args(e, env, names, defaults)
+
+        def k(terms):
+            env2 = {k_: v for k_, v in env.items() if k_ == "self" or k_.startswith("self.")}
+            for n, term, (t, ty, r) in zip(names, terms, argv):
+                env2[n] = (term, ty)
+            sub = Tr(dict(self.cfg, infer=True, _stack=stack + (fn.name,)), self.facts)
+            sub.n = self.n + 100 * (len(stack) + 1)
+            sub.raises = True
+            out = sub.block(list(fn.body), env2)
+            if out[1] == "?":
+                raise Unsupported("helper %s always raises" % fn.name)
+            return out
+        return self.lift(argv, k)
 
     # ---- statements --------------------------------------------------------------------------
     def finish(self, env):
+        if self.cfg.get("infer"):
+            return "tt", "U", False            # the helper falls off its end
         if self.ret == "U" and self.raises:
             return "(Ok tt)", "U", True
         if self.cfg.get("init"):
@@ -375,6 +443,8 @@ class Tr:
     def out(self, v, e):
         """Shape a returned value to the function's declared result."""
         t, ty, r = v
+        if self.cfg.get("infer"):
+            return v                           # inlined helper: the caller shapes the value
         self.need(ty, self.ret, e)
         if self.raises:
             return (t if r else "(Ok %s)" % t), ty, True
@@ -388,6 +458,9 @@ class Tr:
             return else_k(env)
         if isinstance(test, ast.UnaryOp) and isinstance(test.op, ast.Not):
             return self.cond(test.operand, env, else_k, then_k)
+        if isinstance(test, ast.Compare) and len(test.ops) == 1 and isinstance(test.ops[0], ast.NotIn):
+            pos = ast.Compare(left=test.left, ops=[ast.In()], comparators=test.comparators)
+            return self.cond(ast.copy_location(pos, test), env, else_k, then_k)
         u = ast.unparse(test)
         for x, (t, ty) in list(env.items()):
             if "." in x or not x.isidentifier():
@@ -401,8 +474,14 @@ class Tr:
                     env2[x] = (b, after)
                     return self.join("(match %s %s with Some %s => %%s | None => %%s end)"
                                      % (view, t, b), then_k(env2), else_k(env))
-            for pat in STATIC_TRUE_TESTS:
-                if u == pat.format(x=x):
+            # type(x) in <tuple of index types containing the integer ones>, x an integer index
+            if isinstance(test, ast.Compare) and len(test.ops) == 1 \
+                    and isinstance(test.ops[0], ast.In) and ast.unparse(test.left) == "type(%s)" % x:
+                try:
+                    rt = self.ex(test.comparators[0], env)
+                except Unsupported:
+                    rt = None
+                if rt is not None and rt[1] == "TS" and not rt[2]:
                     if ty != "L":
                         raise Unsupported("%s on a value of type %s" % (u, ty))
                     return self.join("(if true then %s else %s)", then_k(env), else_k(env))
@@ -425,6 +504,10 @@ class Tr:
         return self.join("(if %s then %%s else %%s)" % t, then_k(env), else_k(env))
 
     def join(self, fmt, a, b):
+        if a[1] == "?":                       # a branch that only raises (inlined helper)
+            a = (a[0], b[1], a[2])
+        if b[1] == "?":
+            b = (b[0], a[1], b[2])
         if a[1] != b[1]:
             raise Unsupported("branch types differ: %s vs %s" % (a[1], b[1]))
         ta, tb = a[0], b[0]
@@ -504,6 +587,9 @@ class Tr:
             if ty == "MSG":
                 return self.block(rest, env)
             env2 = dict(env)
+            if ty == "TS" and not r:
+                env2[v] = ("tt", "TS")   # a choice between tuples of index types: nothing to compute
+                return self.block(rest, env2)
             if t in ("true", "false"):
                 env2[v] = (t, ty)   # constant alias, so that `if <name>:` can be pruned
                 return self.block(rest, env2)
@@ -521,6 +607,8 @@ class Tr:
                              lambda en: self.block(s.body + rest, en),
                              lambda en: self.block(s.orelse + rest, en))
         if isinstance(s, ast.Raise):
+            if self.cfg.get("infer"):
+                return "Err", "?", True
             if not self.raises:
                 raise Unsupported("raise in a function configured as total")
             return "Err", self.ret, True
@@ -532,6 +620,8 @@ class Tr:
             raise Unsupported("assert reached in the integer world: " + ast.unparse(s))
         if isinstance(s, ast.Expr) and isinstance(s.value, ast.Call):
             t, ty, r = self.ex(s.value, env)
+            if ty == "U" and not r:
+                return self.block(rest, env)       # an inlined helper that cannot raise here
             if ty != "U" or not r:
                 raise Unsupported("expression statement " + ast.unparse(s))
             if not self.raises:
